@@ -21,7 +21,7 @@ LEVEL = "exploration"
 NEEDS_RUST = True
 WORKERS = 14
 CASE_TIMEOUT = 400
-REQUIRED_OBS = ["passes_compared", "restricting_options", "empty_selections_checked"]
+REQUIRED_OBS = ["passes_compared", "restricting_options", "empty_selections_checked", "deferred_streams_compared"]
 RULE = ("datasets with several shards and metadata groups (flat and nested lists, all formats) x option values "
         "(shards=k in 1..>S, predicates selecting none/some/all, custom_metadata_type_limit n in 1..>group size) x "
         "every interface accepting the option x shuffle on/off. Distinct = (format, interface, option class, "
@@ -228,6 +228,39 @@ def _run_case(case: dict, rng, hist: dict, fmt: str, comp: str, verbose: bool) -
                             limit=options.get("custom_metadata_type_limit"))
             check("combined:" + "+".join(sorted(options)), options, chosen, len(chosen) < total,
                   combined=bool(chosen))
+        # --- several differently restricted streams over the same split are *created* first (same Dataset object)
+        # and consumed afterwards, last one first: each must honour the options of its own call
+        def labelled(meta, n):
+            return bool(meta)
+        plans = [("shards=1", {"shards": 1}, select(shards, k=1)),
+                 ("no option", {}, select(shards)),
+                 ("shards=2", {"shards": 2}, select(shards, k=2))]
+        labelled_shards = select(shards, pred=lambda s: labelled(s.metadata, s.recorded))
+        if labelled_shards:
+            plans.insert(1, ("filter:labelled", {"shard_filter": lambda info: labelled(info.custom_metadata, info.number_of_examples)},
+                             labelled_shards))
+        for iface in ifaces:
+            streams = []
+            try:
+                for name, options, expected in plans:
+                    kwargs = dict(options)
+                    if "file_parallelism" in readers.ACCEPTS[iface]:
+                        kwargs["file_parallelism"] = 2
+                    streams.append((name, expected, readers.open_stream(dataset, iface, "train", shuffle=0, repeat=False, **kwargs)))
+                for name, expected, (iterator, closer) in reversed(streams):
+                    want = Counter(i for s in expected for i in s.ids)
+                    try:
+                        got = Counter(dsmod.ids_of(list(iterator))[0])
+                    finally:
+                        closer()
+                    obs["deferred_streams_compared"] += 1
+                    if got != want:
+                        violations.append({"key": f"stream-uses-options-of-another-call/{iface}/{fmt if iface == 'tfds' else 'any'}",
+                                           "msg": f"{fmt} {iface}: streams {[p[0] for p in plans]} were created on one Dataset object and "
+                                                  f"consumed afterwards; the one created with [{name}] yielded {sum(got.values())} "
+                                                  f"examples, its selection holds {sum(want.values())}"})
+            except Exception as exc:  # pylint: disable=broad-exception-caught
+                violations.append({"key": f"selection-raised/{iface}/deferred", "msg": f"{type(exc).__name__}: {str(exc)[:200]}"})
         obs["shards_in_dataset"] = total
         obs["cases_with_info_logging"] = int(verbose)
         return {"sigs": sigs, "sig": None, "nontrivial": bool(sigs), "violations": violations, "obs": dict(obs),
